@@ -107,6 +107,9 @@ def _gen_op(rng, cfg):
             if rng.random() < 0.5:
                 return ["ang", method, "degree", min(s0, tab[-1][0]), rng.random() < 0.8]
             return ["ang", method, "size", max(d0, 1), rng.random() < 0.8]
+        if u < 0.16:
+            # zero is a legal request (resolves to the smallest grid) - and a falsy one
+            return ["ang", method, rng.choice(["degree", "size"]), 0, rng.random() < 0.8]
         if u < 0.75:
             return ["ang", method, "degree", rng.choice(pool), rng.random() < 0.8]
         r = M.resolve(method, "degree", rng.choice(pool))
